@@ -141,6 +141,20 @@ def run(ctx):
             cases.append({"src": "replace all %s with %s" % (body, " ".join(show4(i) for i in its)), "texts": pt})
             cases.append({"src": "find all %s" % body, "texts": pt})
             meta.append(its)
+    # captures that carry the NAME of something a transform is given (match, matchLength, matchNumber): the transform still runs with the whole match as
+    # `match`, its length and its number; the capture of that name is what the with-list item of that name denotes (round 16)
+    wrapm = "set wrapm to transform return '[' + match + ']' end"
+    lenm = "set lenm to transform return '' + matchLength + '/' + matchNumber end"
+    for body in ("(digit = match) '-' (letter = rest)", "(digit = matchLength) '-' (letter = rest)", "(digit = matchNumber) '-' (letter = match)",
+                 "(at least 1 digit) = matchLength maybe ('-' (letter = match))"):
+        for its in ([("transform", "wrapm"), ("str", ":"), ("cap", "rest")], [("transform", "lenm"), ("str", ":"), ("transform", "wrapm")],
+                    [("cap", "rest"), ("transform", "wrapm"), ("transform", "lenm"), ("builtin", "value")]):
+            def show6(it):
+                return genprog.q(it[1]) if it[0] == "str" else it[1]
+            sh_texts = ["1-a 7-x", "12-b 3", "5-q5-r", "-a 9-"]
+            cases.append({"src": "\n".join([wrapm, lenm, "replace all %s with %s" % (body, " ".join(show6(i) for i in its))]), "texts": sh_texts})
+            cases.append({"src": "\n".join([wrapm, lenm, "find all %s" % body]), "texts": sh_texts})
+            meta.append(its)
     gres, dis, stats = corr_core.run_core(cases, shards=12, spec=False)
     report_core_disagreements(ctx, cases, dis, in_scope=in_scope_core, known=known_core)
     ev = 0
